@@ -398,6 +398,54 @@ fn run_packet_numbers(kind: u64, ttl_ix: u64, trace: bool) -> CaseResult {
     res
 }
 
+/// Every prefix of packets the crate itself encoded (compressed names, probes with authority
+/// records, announcements, answers) and of the hand-built corpus, delivered to a daemon that browses,
+/// resolves and has a registration: it must survive all of them.
+fn run_truncations(trace: bool) -> CaseResult {
+    let mut res = CaseResult { nontrivial: true, ..Default::default() };
+    // packets encoded by the crate: what a registering daemon sends while probing and announcing,
+    // and its answers to a few questions
+    let mut src = World::one(lay_dual());
+    src.ds[0].h.set_ip_check_interval(0).unwrap();
+    src.ds[0].h.register(svc("_s._sub._t._tcp.local.", "Sender One", "sender-host.local.", "10.0.0.5,fd00::5", 80, &[("k", "v"), ("flag", "")])).unwrap();
+    src.poke(0);
+    src.advance(2500);
+    for q in [vec![(n("_t._tcp.local"), T_PTR)], vec![(n("sender one._t._tcp.local"), T_ANY), (n("sender-host.local"), T_ANY)], vec![(n("_services._dns-sd._udp.local"), T_PTR)]] {
+        src.deliver(0, IF0, PEER0, build(&query(q)));
+    }
+    let mut packets: Vec<Vec<u8>> = outs(&src, 0, 0).into_iter().map(|(_, o)| o.data).collect();
+    packets.sort();
+    packets.dedup();
+    packets.extend(crate::c01::corpus());
+    let mut w = World::one(lay_dual());
+    w.trace = trace;
+    w.ds[0].h.set_ip_check_interval(0).unwrap();
+    w.poke(0);
+    let rx = w.ds[0].h.browse("_t._tcp.local.").unwrap();
+    w.add_browse(0, rx);
+    let rx = w.ds[0].h.resolve_hostname("sender-host.local.", None).unwrap();
+    w.add_host(0, rx);
+    w.ds[0].h.register(svc("_t._tcp.local.", "mine", "myhost.local.", "10.0.0.6", 81, &[])).unwrap();
+    w.poke(0);
+    w.advance(100);
+    'all: for p in &packets {
+        for cut in 0..=p.len() {
+            w.deliver(0, IF0, PEER0, p[..cut].to_vec());
+            res.transitions += 1;
+            if let Some(f) = daemon_fault(&w, 0) {
+                res.viols.push(viol(format!("C15|daemon-thread-ended|truncated-packet|{}", panic_sig(&f)), format!("packet of {} bytes cut to {cut}: {f}; data {}", p.len(), truncate(&hex(&p[..cut]), 200))));
+                break 'all;
+            }
+        }
+    }
+    res.count("truncated_packets_delivered", res.transitions);
+    w.advance(4000);
+    still_serving(&mut w, &mut res, "truncated-packets", "all prefixes of crate-encoded and corpus packets");
+    res.outcome = outcome_hash(&w.log);
+    res.states = final_states(&w);
+    res
+}
+
 pub fn check(tier: &str) -> i32 {
     let mut rep = Report::new("C15", tier, "exploration");
     let thorough = rep.thorough();
@@ -474,6 +522,15 @@ pub fn check(tier: &str) -> i32 {
         run: Box::new(move |i, tr| { let x = unrank(i, &ndims); run_packet_numbers(x[0], x[1], tr) }),
     };
     rep.run_part(&nums, Duration::from_secs(120));
+    let tr = FnPart {
+        name: "truncated-packets".into(),
+        rule: "every prefix (each length from 0 to all) of every packet a registering daemon of this crate sends while probing, announcing and answering (compressed names), and of the hand-built corpus, delivered to a daemon with a browse, a resolver and a registration; then the still-serving test".into(),
+        n: 1,
+        describe: Box::new(|_| "all prefixes".to_string()),
+        run: Box::new(|_, tr| run_truncations(tr)),
+    };
+    rep.run_part(&tr, Duration::from_secs(120));
+    rep.require("truncated-packets", "truncated_packets_delivered");
     // conflict renames that have to shorten a label holding a multi-byte character
     let cut_labels: Vec<String> = crate::c08::multibyte_labels("", "").into_iter().collect::<std::collections::BTreeSet<_>>().into_iter().collect();
     let ncut = cut_labels.len() as u64;
